@@ -175,5 +175,9 @@ func Conv(g *G, n int) []Program {
 	if g.Pending() > 0 {
 		out = append(out, g.Flush("conv"))
 	}
+	out = append(out, BinaryBoundary(g, "conv")...)
+	if g.Pending() > 0 {
+		out = append(out, g.Flush("conv"))
+	}
 	return out
 }
